@@ -220,7 +220,103 @@ fn position_cmd(start: &Pos, from_startpos: bool, moves: &[String], rng: &mut Rn
     }
 }
 
+/// "independent of anything sent earlier in the session" includes earlier SEARCHES: the game is
+/// searched first (so that whatever the engine caches about the positions near it is filled in),
+/// and then lines of one and two plies into the searched tree are sent, each ending in a move
+/// that is not legal there - every pseudo-legal move that leaves the own king in check, in the
+/// positions where the side to move is in check or has a pinned piece - or in a legal control.
+fn searched_then_corrupted(cx: &super::GenCtx) -> Vec<Plan> {
+    let seed = cx.seed;
+    let mut rng = Rng::new(seed ^ 0x5ea2c4ed);
+    let mut plan = Plan::new("C08", seed);
+    let mut s: Vec<Action> = vec![];
+    let (start, from_startpos) = start_position(&mut rng);
+    let plies = match rng.below(4) {
+        0 => rng.below(8),
+        _ => rng.range(8, 70),
+    } as usize;
+    let (ms, ps) = playout(&start, plies, &mut rng, true);
+    let base: Vec<String> = ms.iter().map(Mv::uci).collect();
+    let root = ps.last().unwrap().clone();
+    s.push(Action::send(position_cmd(&start, from_startpos, &base, &mut rng)));
+    let depth = if root.piece_count() > 16 { rng.range(2, 4) } else { rng.range(2, 5) };
+    if rng.chance(1, 4) {
+        s.push(Action::send("go infinite"));
+        s.push(Action::DelaySteps(rng.range(50, 3000)));
+        s.push(Action::send("stop"));
+    } else {
+        s.push(Action::send(format!("go depth {depth}")));
+    }
+    s.push(Action::WaitBestmove);
+    s.push(Action::WaitIdle);
+    // lines into the tree, those ending in a position with illegal pseudo-legal moves first
+    let mut lines: Vec<(Vec<String>, Pos, usize)> = vec![];
+    for m1 in root.legal_moves() {
+        let p1 = root.make(m1);
+        let n1 = p1.illegal_pseudo_moves().len();
+        lines.push((vec![m1.uci()], p1.clone(), n1 + if p1.in_check(p1.white) { 100 } else { 0 }));
+        if lines.len() > 600 {
+            continue;
+        }
+        for m2 in p1.legal_moves() {
+            let p2 = p1.make(m2);
+            if p2.in_check(p2.white) {
+                let n2 = p2.illegal_pseudo_moves().len();
+                lines.push((vec![m1.uci(), m2.uci()], p2, n2 + 100));
+            }
+        }
+    }
+    rng.shuffle(&mut lines);
+    lines.sort_by_key(|l| std::cmp::Reverse(l.2.min(101)));
+    let mut sent = 0usize;
+    let mut illegal_sent = 0u64;
+    let mut controls = 0;
+    for (l, p, w) in lines.into_iter().take(40) {
+        if w == 0 {
+            controls += 1;
+            if controls > 2 {
+                continue;
+            }
+        }
+        let mut tails: Vec<String> = p.illegal_pseudo_moves().iter().map(Mv::uci).collect();
+        illegal_sent += tails.len().min(40) as u64;
+        tails.truncate(40);
+        let legal: Vec<String> = p.legal_moves().iter().map(Mv::uci).collect();
+        for _ in 0..2 {
+            if !legal.is_empty() {
+                tails.push(rng.pick(&legal).clone());
+            }
+        }
+        for t in tails {
+            let mut m2 = base.clone();
+            m2.extend(l.iter().cloned());
+            m2.push(t);
+            s.push(Action::send(position_cmd(&start, from_startpos, &m2, &mut rng)));
+            sent += 1;
+        }
+        if sent > 260 {
+            break;
+        }
+    }
+    s.push(Action::send("isready"));
+    s.push(Action::send("quit"));
+    gen::decorate_all(&mut s, &mut rng, 2);
+    plan.script = s;
+    plan.step_cap = 4_000_000;
+    plan.tick_cap = 8_000_000;
+    gen::machine(&mut plan, &mut rng, 10_000, false);
+    gen::schedule(&mut plan, &mut rng, 3_000);
+    plan.params = super::super::json::J::obj()
+        .set("related_position_commands", 0u64)
+        .set("searched_then_corrupted", 1u64)
+        .set("illegal_tails_after_search", illegal_sent);
+    vec![plan]
+}
+
 pub fn generate(cx: &super::GenCtx) -> Vec<Plan> {
+    if cx.index % 8 == 5 {
+        return searched_then_corrupted(cx);
+    }
     let seed = cx.seed;
     let mut rng = Rng::new(seed);
     let mut plan = Plan::new("C08", seed);
@@ -446,12 +542,12 @@ pub fn check(plans: &[Plan], recs: &[RunRec]) -> Outcome {
                             as_new
                         ),
                     ));
-                } else if !diagnosed {
-                    out.violations.push(Violation::new(
-                        "illegal_move_no_diagnostic",
-                        format!("line {li} {:?}: refused silently (stderr: {:?})", short(&l.text), l.errs),
-                    ));
                 } else if before.known {
+                    // (whether and how the refusal is worded on stderr is not part of the
+                    // property: counted, not judged)
+                    if !diagnosed {
+                        out.stats.inc("refused_without_the_usual_diagnostic");
+                    }
                     if let Err(e) = compare_board(ba, &before.game) {
                         out.violations.push(Violation::new(
                             "previous_position_damaged",
@@ -484,6 +580,7 @@ pub fn check(plans: &[Plan], recs: &[RunRec]) -> Outcome {
     }
     out.stats.add("position_checks", checked);
     out.stats.add("reach.related_position_commands", plans[0].params.u("related_position_commands"));
+    out.stats.add("reach.illegal_tails_after_search", plans[0].params.u("illegal_tails_after_search"));
     if rec.end == EndReason::Deadlock {
         out.violations
             .push(Violation::new("wedged", "nothing runnable before the session finished"));
